@@ -141,7 +141,15 @@ fn qmulti(json: &str) -> String {
   let mut sources: HashMap<ModuleReference, String> =
     samlang_parser::builtin_std_raw_sources(&mut heap).into_iter().collect();
   let mut mods: Vec<(String, ModuleReference, String)> = Vec::new();
+  // "__only__": comma-separated module names to answer for (the whole project is always loaded)
+  let only: Option<Vec<String>> = v
+    .get("__only__")
+    .and_then(|x| x.as_str())
+    .map(|x| x.split(',').map(|y| y.to_string()).collect());
   for (name, text) in v.as_object().expect("object") {
+    if name == "__only__" {
+      continue;
+    }
     let m = heap.alloc_module_reference_from_string_vec(name.split('.').map(|s| s.to_string()).collect());
     sources.insert(m, text.as_str().unwrap().to_string());
     mods.push((name.clone(), m, text.as_str().unwrap().to_string()));
@@ -150,6 +158,11 @@ fn qmulti(json: &str) -> String {
   let state = ServerState::new(heap, false, sources);
   let mut out = Vec::new();
   for (name, m, text) in &mods {
+    if let Some(o) = &only
+      && !o.contains(name)
+    {
+      continue;
+    }
     if !state.get_errors(m).is_empty() {
       out.push(format!("{name} :: rejected"));
       continue;
